@@ -9,10 +9,10 @@ from hypothesis import strategies as st
 
 ID = "C13"
 TECHNIQUE = 'Hypothesis-generated axes/data + complete enumeration of lengths, against the defining Fourier sum (dense matrix product) and the identity round trip'
-LEVEL = 'Every length 2..257, both domains and both axis types are enumerated with fixed data, and starts, steps and complex data are generated; the returned transform is compared point by point with the defining sum on the returned axis, FT followed by inverse FT with the original values and axis, and the axis round trip element-wise (tolerance 1e-10*N relative).'
-NOTE = 'Inverse-first round trips and round trips of upper-half frequency-domain functions are not claimed (not stated by the property / not injective). Lengths > 257 are not explored.'
+LEVEL = 'Every length 2..257 (and lengths around powers of two up to 2049), both domains and both axis types are enumerated with fixed data, and starts, steps and complex data are generated; the returned transform is compared point by point with the defining sum on the returned axis, FT followed by inverse FT with the original values and axis, and the axis round trip element-wise (tolerance 1e-10*N relative).'
+NOTE = 'Inverse-first round trips and round trips of upper-half frequency-domain functions are not claimed (not stated by the property / not injective). Lengths are enumerated to 257, sampled to 1200 and probed around powers of two up to 2049 (thorough tier).'
 EXHAUSTIVE = True
-RULE = ("generated: (domain time|frequency, axis type complete|upper-half, length 2..257, start, step, complex "
+RULE = ("generated: (domain time|frequency, axis type complete|upper-half, length 2..1200, start, step, complex "
         "integer-valued data; f(0) real on upper-half axes); grid: every length 2..64 (quick) / 2..257 (thorough) x "
         "domain x axis type with fixed pseudo-data. Clauses per case: axis round trip; FT == direct sum on the "
         "returned axis (complete axes centred at zero, upper-half time axes starting at 0 with the Hermitian "
@@ -45,12 +45,18 @@ def _cases(draw, nmax):
 
 
 def strategy(tier):
-    return _cases(65 if tier == "quick" else 257)
+    return _cases(65 if tier == "quick" else 1200)
 
 
 def grid(tier):
     nmax = 64 if tier == "quick" else 257
     for n in range(2, nmax + 1):
+        for dom in ("time", "freq"):
+            for atype in ("complete", "upper-half"):
+                data = [((i * 7919 + n * 31) % 19) - 9 for i in range(2 * n)]
+                yield _case(dom, atype, n, True, 0, 1.0, data)
+    # lengths around powers of two beyond the enumerated range
+    for n in ((127, 128, 129, 255, 256, 257) if tier == "quick" else (511, 512, 513, 1023, 1024, 1025, 2047, 2048, 2049)):
         for dom in ("time", "freq"):
             for atype in ("complete", "upper-half"):
                 data = [((i * 7919 + n * 31) % 19) - 9 for i in range(2 * n)]
